@@ -158,7 +158,7 @@ pub fn run(ctx: &Ctx) {
     ctx.assume("the isolated-segment oracle is reference COBS decoding followed by the reference wire decoder (trailing payload bytes ignored, as from_bytes does)");
     // (a) all chunkings of short streams
     let lmax = ctx.tier.pick(12usize, 16);
-    let n = ctx.tier.pick(1_200, 6_000);
+    let n = ctx.tier.pick(8_000, 40_000);
     ctx.par_proptest(
         "all-chunkings-short-streams",
         n,
@@ -177,7 +177,7 @@ pub fn run(ctx: &Ctx) {
         },
     );
     // (b) every pair of cut points for longer streams
-    let n = ctx.tier.pick(1_500, 30_000);
+    let n = ctx.tier.pick(10_000, 100_000);
     ctx.par_proptest(
         "all-cut-pairs",
         n,
@@ -195,7 +195,7 @@ pub fn run(ctx: &Ctx) {
         },
     );
     // (c) random compositions of long streams
-    let n = ctx.tier.pick(60_000, 2_000_000);
+    let n = ctx.tier.pick(600_000, 6_000_000);
     ctx.par_proptest(
         "random-chunkings",
         n,
